@@ -42,6 +42,26 @@ def ep_readers_rule(run):
         run.broke('channel::ep has only %d reader functions (4 confirmed by hand)' % len(readers))
 
 
+def accept_queue_drained_rule(run):
+    """acceptor::close(ec) leaves no connection queued: m_incoming_conns is emptied on every path - directly, or by
+    check_accept_queue() called once the socket is closed (its !is_open() branch resets every queued connector and clears
+    the queue).  Otherwise a SYN queued for the old endpoint is handed out by the first accept after the acceptor is
+    re-opened and bound elsewhere, and its connector is never refused (shared with C11: a connect never reaches a socket
+    that no longer holds the binding it was addressed to)."""
+    fx = run.fx
+    cl = fx.fn1(A + '::close', '(boost::system::error_code &)')
+    run.touch(cl)
+    clears = [c for op, c in q.container_calls(cl, 'm_incoming_conns') if op == 'clear']
+    caq = [c for c in cl.calls() if q.callee_name(c) == A + '::check_accept_queue']
+    closes = [c for c in cl.calls() if (q.callee_name(c) or '').endswith('tcp::socket::close')]
+    caq_f = fx.fn1(A + '::check_accept_queue')
+    clears_when_closed = any(op == 'clear' and any(q.render(caq_f, a).replace('this->', '') in ('is_open()', 'm_open') and not p for a, p in q.guards_at(caq_f, c)) for op, c in q.container_calls(caq_f, 'm_incoming_conns'))
+    via_helper = bool(caq) and clears_when_closed and q.on_all_paths(cl, caq) and all(q.any_precedes(cl, closes, c) for c in caq)
+    run.check((bool(clears) and q.on_all_paths(cl, clears)) or via_helper, 'R7', 'close-drains-accept-queue', A + '::close', cl.loc(),
+              'acceptor::close(ec) leaves m_incoming_conns as it is: a connection queued before the close is still there when the acceptor is re-opened, bound to another endpoint and accepts - a connect addressed to the old endpoint is accepted on the new one, and until then its connector is never refused',
+              'the accept queue is emptied on every path of close(ec)')
+
+
 def check(run):
     fx = run.fx
     ep_readers_rule(run)
@@ -225,6 +245,7 @@ def check(run):
     import p12
     p12.forwarder_rules(run, (T,))
 
+    accept_queue_drained_rule(run)
     run.clause('close(ec) ends listening: the listen limit has a closed writer set and is reset on every path of acceptor::close(ec)')
     engines.r2_writer_table(run, A + '::m_queue_size_limit', {A + '::acceptor': 'constructed not listening', A + '::listen': 'starts listening', A + '::close': 'stops listening'},
                             required=[A + '::listen', A + '::close'])
